@@ -233,7 +233,7 @@ def run(ctx: Ctx) -> None:
 
         # ---- R6 column/index agreement and extractor provenance
         n6 = 0
-        for lam in [x for x in walk_local(init.node, include_nested=True) if isinstance(x, ast.Lambda)]:
+        for lam in [x for m_ in c.methods.values() for x in walk_local(m_.node, include_nested=True) if isinstance(x, ast.Lambda)]:
             subs = [s for s in ast.walk(lam.body) if isinstance(s, ast.Subscript)
                     and isinstance(s.value, ast.Attribute) and s.value.attr == "fitness_components"]
             if not subs:
@@ -255,7 +255,7 @@ def run(ctx: Ctx) -> None:
                     if denotes is not None and denotes in names_read(key):
                         # receiver must be the lambda's individual parameter
                         ok, why = True, f"column name and index both derive from loop variable '{denotes}'"
-                ctx.ob("C20.R6", init, s, f"Fitness column index {norm(idx)}", ok, why)
+                ctx.ob("C20.R6", ctx.prog.function_containing(lam) or init, s, f"Fitness column index {norm(idx)}", ok, why)
         # register passes the individual parameter to every extractor
         ind_p = params[2]
         for call in res.calls_in(reg):
